@@ -28,7 +28,7 @@ func Spec() *mon.Spec {
 		ID:    "C02",
 		Level: "exploration",
 		Rule: "wf: reference-encoded well-formed response frames: FC1/2 every byte count 1..250, FC3/4/23 every even count 2..250, FC5 both values, FC6 PRNG values, FC15 quantities 1..1968, FC16 1..123, FC17 id length 1..120 x additional 0..120; PRNG/structured payloads, boundary+PRNG tid, unit. Each frame goes through the dispatcher(s) (ParseTCPResponse | ParseRTUResponse + ParseRTUResponseWithCRC) and the per-function parser; oracle: no error, every decoded field equals the reference decoder's, Bytes()==frame, FunctionCode()==fc. " +
-			"exc: all 128 exception function codes x all 256 codes x units: nil response, errors.As typed exception with unit/function/code(/tid). mismatch: byte-count field +-1..3 and frames truncated/extended by 1..3 (framing kept consistent): must be rejected. weak: byte count 0, 251..255, odd register counts: error or exact decode. distinct key=(kind, fc, framing, byte count, entry point).",
+			"exc: all 128 exception function codes x all 256 codes x units: nil response, errors.As typed exception with unit/function/code(/tid). mismatch: byte-count field +-1..3 and frames truncated/extended by 1..3 (framing kept consistent), and TCP frames followed by 1..3 bytes their header does not count: must be rejected. weak: byte count 0, 251..255, odd register counts: error or exact decode. distinct key=(kind, fc, framing, byte count, entry point).",
 		Assumptions: []string{"FC17 layout as documented by the library (count = server id length, run status, optional additional data); the specification leaves the split device specific",
 			"FC5 replies with a value other than 0x0000/0xFF00 are not well-formed and not generated"},
 		NewCase:  func() any { return &Case{} },
@@ -343,6 +343,13 @@ func runMismatch(c *Case, r *mon.Rec, fr specref.Framing, rng *rand.Rand) {
 				expectReject(c, r, fr, reframe(fr, p, cut), "fc17-cut", keep-c.N-1)
 			}
 			continue
+		}
+		if fr == specref.TCP {
+			// (c) (not FC17, whose count only fixes the id length: bytes after the status are additional data) a consistent frame followed by bytes its own header and byte count do not account for: the byte
+			// string handed to the parser is longer than the frame it describes
+			for d := 1; d <= 3; d++ {
+				expectReject(c, r, fr, append(p.Encode(fr), libx.RandBytes(rng, d)...), "surplus-after-frame", d)
+			}
 		}
 		for d := -3; d <= 3; d++ {
 			if d == 0 {
